@@ -22,7 +22,8 @@ VARIANTS = [
     "default version outside the allowed set",
     "every status query of the run cut",
     "completed status() before the negotiating connect()",
-    "kick conversation with answers still owed"
+    "kick conversation with answers still owed",
+    "socket descriptor beyond select()'s range (failing system call)"
 ]
 WALL_CAP = {'quick': 240, 'thorough': 3000}
 EOF_READ_LIMIT = 16
@@ -210,8 +211,8 @@ def plan(tier):
     return _plan_cache[tier]
 
 
-ROUNDS = {'quick': ['plain', 'rst'],
-          'thorough': ['plain', 'one-byte', 'segmented', 'rst']}
+ROUNDS = {'quick': ['plain', 'rst', 'high-fd'],
+          'thorough': ['plain', 'one-byte', 'segmented', 'rst', 'high-fd']}
 
 
 def total(tier, seed):
@@ -229,6 +230,15 @@ def scenario_for(seed, index, tier):
         variant = {'one_byte_reads': True}
     elif rnd == 'rst':
         variant = {'cut_mode': 'rst'}
+    elif rnd == 'high-fd':
+        # the process already holds more than a thousand descriptors: the
+        # socket's number is beyond what select() accepts (poll() does not
+        # mind).  Failing at once with that error is fine, carrying on is
+        # fine - spinning on the failing call or ending silently is not.
+        variant = {'fd_base': 1100}
+        if conv.get('prior_status'):
+            # (the set-up query would be what fails)
+            variant, rnd = None, 'plain'
     elif rnd == 'segmented':
         variant = {'segment': True, 'short_read': True}
     sc = make_scenario(conv, k, variant)
@@ -429,10 +439,11 @@ def check(scenario, w, st, res):
     if len(delivered) > len(complete):
         V.append(('C15/incomplete-packet-delivered',
                   {'delivered': len(delivered), 'complete': len(complete)}))
-    if scenario.get('cut_mode') == 'rst':
-        # an abortive close also discards what the client had not read yet:
-        # only liveness (above), the safety clause (above) and "not silent"
-        # are decided
+    if scenario.get('cut_mode') == 'rst' or scenario.get('round') == 'high-fd':
+        # an abortive close also discards what the client had not read yet,
+        # and a descriptor select() rejects may end the thread before it
+        # reads anything: only liveness (above), the safety clause (above)
+        # and "not silent" are decided
         ob()
         names = [p[2] for p in st['pkts']]
         ended = 'disconnect' in names or (
@@ -441,9 +452,11 @@ def check(scenario, w, st, res):
                                  not scenario['ping'])))
         if not errs and not ended and not (
                 len(apps) >= 2 and apps[1].handshake is not None):
-            V.append(('C15/silent-exit:rst', {'cut': k}))
-        res.probes['cut-by-rst'] = 1
-        res.state_sigs = [(scenario['conv'], k, 'rst')]
+            V.append(('C15/silent-exit:%s' % scenario.get('round', 'rst'),
+                      {'cut': k}))
+        res.probes['cut-by-rst' if scenario.get('cut_mode') == 'rst'
+                   else 'descriptor-beyond-select-range'] = 1
+        res.state_sigs = [(scenario['conv'], k, scenario.get('round', 'rst'))]
         return
     # classification
     status_phase = scenario['call'] == 'connect' and \
